@@ -44,7 +44,7 @@ def spec_strategy(draw):
         'names': draw(st.lists(st.sampled_from(['c20.a', 'c20.b.c', 'c20.quiet']), min_size=1, max_size=3)),
         'tail': draw(st.sampled_from(['last_statement', 'last_statement', 'then_sleep'])),
         'ending': draw(st.sampled_from(['return', 'return', 'raise', 'exit_n'])),
-        'slow_ms': draw(st.sampled_from([0, 0, 0, 1])),
+        'slow_ms': draw(st.sampled_from([0, 0, 0, 1, 5])) if n <= 1200 else draw(st.sampled_from([0, 0, 0, 1])),
         'parent_level': draw(st.sampled_from([10, 10, 20, 30])),
     }
 
